@@ -66,9 +66,14 @@ def xml_legal(s):
 
 
 def value_xml_legal(term, v, env):
-    for l, x in leaf_components(term, v, env):
-        if isinstance(x, str) and not xml_legal(x):
-            return False
+    """Every character string anywhere in the value is XML-1.0-legal (the whole value is walked:
+    casefmt.leaf_components only samples long lists)."""
+    if isinstance(v, str):
+        return xml_legal(v)
+    if isinstance(v, dict):
+        return all(value_xml_legal(term, x, env) for x in v.values())
+    if isinstance(v, (list, tuple)):
+        return all(value_xml_legal(term, x, env) for x in v)
     return True
 
 
